@@ -27,6 +27,8 @@ def _single_defs(fi, name):
 
 
 def check(prog, run):
+    from . import c01 as _c01
+    _c01.check_no_bulk_scan(prog, run, "L5")   # = C01.L4: a region skipped by a bulk search drops the nodes written in it
     ncs = nodeshape.node_classes(prog)
     cons = nodeshape.parser_constructions(prog)
     parser = prog.get_class(PARSER, "Parser")
